@@ -185,7 +185,16 @@ def clause_c(ctx, P):
         hp = [b for b, t in cf.calls() if name_matches(cname(t), "DnsRecord::halflife_passed")]
         okg = bool(hp) and must_pass_edges(cf, hp[0], e_nu)
         ctx.ob("C10c.known-answer-filter", cf.name, okr and okg, cf.loc(), "known answers = records with !is_unique() && !halflife_passed(now)")
-    ctx.require(found, "C10c.anchor", g.name, g.loc(), "filter closure of get_known_answers found")
+    if not found:
+        # the same filter written as a loop: a record is pushed only past `!is_unique()` and `!halflife_passed(now)`
+        pushes = [b for b, t in g.calls() if name_matches(cname(t), "Vec::push")]
+        e_nu = guard_edges(P, g, lambda atom, outcome, bb: atom[0] == "call" and name_matches(strip_generics(atom[1]), "DnsRecord::is_unique") and outcome is False)
+        e_nh = guard_edges(P, g, lambda atom, outcome, bb: atom[0] == "call" and name_matches(strip_generics(atom[1]), "DnsRecord::halflife_passed") and outcome is False)
+        if pushes and e_nu and e_nh:
+            found = True
+            okl = all(must_pass_edges(g, b, e_nu) and must_pass_edges(g, b, e_nh) for b in pushes)
+            ctx.ob("C10c.known-answer-filter", g.name, okl, g.loc(pushes[0]), "known answers = records with !is_unique() && !halflife_passed(now) (loop form)")
+    ctx.require(found, "C10c.anchor", g.name, g.loc(), "filter of get_known_answers found (closure or loop)")
     h = P.one("DnsRecord::halflife_passed")
     rs = ret_exprs(P, h)
     # now > get_expiration_time(created, ttl, 50)
